@@ -41,7 +41,7 @@ impl Kanata {
             held_layer_active = true;
             if let Some(outputs_for_key) = self.key_outputs[usize::from(layer)].get(&event.code) {
                 log::debug!("key outs for active layer-while-held: {outputs_for_key:?};");
-                for osc in outputs_for_key.iter().rev().copied() {
+                for osc in repeat_candidates(outputs_for_key) {
                     let kc = osc.into();
                     if self.cur_keys.contains(&kc)
                         || self.unshifted_keys.contains(&kc)
@@ -70,7 +70,7 @@ impl Kanata {
             // 2. current layer is layer-while-held but did not find a match in the code above, e.g. a
             //    transparent key was pressed.
             log::debug!("key outs for default layer: {outputs_for_key:?};");
-            for osc in outputs_for_key.iter().rev().copied() {
+            for osc in repeat_candidates(outputs_for_key) {
                 let kc = osc.into();
                 if self.cur_keys.contains(&kc)
                     || self.unshifted_keys.contains(&kc)
@@ -100,4 +100,14 @@ impl Kanata {
         }
         Ok(())
     }
+}
+
+/// The possible outputs of a physical key in the order they are tried for a repeat: last listed
+/// first, but every non-modifier key before any modifier. A key that is listed before a modifier
+/// only because it was already in the list, e.g. `a` in `(tap-hold 200 200 a S-a)`, must still be
+/// preferred over the modifier of its chord.
+fn repeat_candidates(outputs: &[OsCode]) -> impl Iterator<Item = OsCode> + '_ {
+    let non_modifiers = outputs.iter().rev().filter(|osc| !osc.is_modifier());
+    let modifiers = outputs.iter().rev().filter(|osc| osc.is_modifier());
+    non_modifiers.chain(modifiers).copied()
 }
